@@ -57,7 +57,7 @@ Definition in_domain (rs : list pres) : bool :=
 
 Definition check_plot : rd verdict :=
   nattacks <- getz ;; arrivals <- getlist getpres ;; add_err <- getbool ;;
-  full <- getlist getoseries ;; fullx <- getlist getz ;; th <- getz ;; down_err <- getbool ;; down <- getlist getoseries ;; downx <- getlist getz ;;
+  full <- getlist getoseries ;; fullx <- getlist getz ;; th <- getz ;; down_err <- getbool ;; down <- getlist getoseries ;; downx <- getlist getz ;; cli_same <- getbool ;;
   let attacks := map Z.of_nat (seq 0 (Z.to_nat nattacks)) in
   let per := fun a => map snd (filter (fun ar => fst ar =? a) arrivals) in
   let states := map (fun a => (a, ls_adds (per a))) attacks in
@@ -88,6 +88,7 @@ Definition check_plot : rd verdict :=
         prop_ok 3 (forallb (fun o => nondecr 0 (os_pts o)) full) [];
         (* the rows of the data block as written: sorted by x over all series *)
         prop_ok 6 (nondecr 0 (map (fun x => (x, 0)) fullx) && nondecr 0 (map (fun x => (x, 0)) downx)) [];
+        prop_ok 7 cli_same [th];
         (* downsampled plot *)
         prop_ok 4 (forallb (fun '(a, e) =>
                      let f := find_obs full a e in let d := find_obs down a e in
